@@ -812,4 +812,72 @@ theorem proxy_counts (i : ProxyIn) (u d : Out)
     simp only [PState.finish, Option.map_some, Option.getD_some, halfPipe_counted, halfPipe_delivered]
     exact ⟨run_counted i.up, run_counted i.down⟩
 
+/-! ### a read error ends the direction, however long the error persists -/
+
+theorem prepend_nReads (evs : List Ev) (chunk : Bytes) (n : Nat) (r : Res) :
+    nReads (r.prepend evs chunk n).trace = nReads evs + nReads r.trace := by
+  simp [Res.prepend, nReads_append]
+
+theorem nReads_two (a : Nat) (b : Bool) (bs : Bytes) (ws : List WriteRes) :
+    nReads [Ev.read a b, (writeStep bs ws).ev] = 1 := by
+  obtain ⟨o, n, h⟩ := writeStep_ev bs ws
+  rw [h]; rfl
+
+theorem nReads_one (a : Nat) (b : Bool) : nReads [Ev.read a b] = 1 := rfl
+
+theorem afterWrite_nReads_err (e : Err) (ds : List DlRes) (k : List DlRes → Res) :
+    nReads (afterWrite (some e) ds k).trace = 0 := by
+  simp [afterWrite, nReads]
+
+theorem afterWrite_nReads_le (er : Option Err) (ds : List DlRes) (k : List DlRes → Res) (m : Nat)
+    (hk : ∀ ds', nReads (k ds').trace ≤ m) : nReads (afterWrite er ds k).trace ≤ m := by
+  unfold afterWrite
+  cases er with
+  | some e => simp [nReads]
+  | none =>
+    have hn := armBoth_nReads ds
+    rcases armBoth_cases ds with ⟨f, d', h⟩ | ⟨f1, f2, d', h⟩ | ⟨f1, f2, d', h⟩ <;> simp only [h] at hn ⊢
+    · simp [hn]
+    · simp [hn]
+    · rw [prepend_nReads, hn]; simpa using hk d'
+
+/-- error-free reads `pre`, then a read that reports an error: the loop makes no further `Read`, whatever
+the script holds after it -/
+theorem loop_reads_until_error (pre : List ReadRes) (bs : Bytes) (e : Err) (rest : List ReadRes) :
+    ∀ ws ds, nReads (loop (pre ++ ⟨bs, some e⟩ :: rest) ws ds).trace ≤ pre.length + 1 := by
+  induction pre with
+  | nil =>
+    intro ws ds
+    simp only [List.nil_append, loop, List.length_nil]
+    split
+    · split
+      · show nReads [Ev.read _ _, (writeStep bs ws).ev] ≤ _
+        rw [nReads_two]; omega
+      · rw [prepend_nReads, nReads_two, afterWrite_nReads_err]; omega
+    · rw [prepend_nReads, nReads_one, afterWrite_nReads_err]; omega
+  | cons r pre ih =>
+    intro ws ds
+    simp only [List.cons_append, loop, List.length_cons]
+    split
+    · split
+      · show nReads [Ev.read _ _, (writeStep r.bytes ws).ev] ≤ _
+        rw [nReads_two]; omega
+      · rw [prepend_nReads, nReads_two]
+        have := afterWrite_nReads_le r.err ds (fun ds' => loop (pre ++ ⟨bs, some e⟩ :: rest) (writeStep r.bytes ws).ws ds')
+          (pre.length + 1) (fun ds' => ih _ ds')
+        omega
+    · rw [prepend_nReads, nReads_one]
+      have := afterWrite_nReads_le r.err ds (fun ds' => loop (pre ++ ⟨bs, some e⟩ :: rest) ws ds')
+        (pre.length + 1) (fun ds' => ih _ ds')
+      omega
+
+theorem run_reads_until_error (pre : List ReadRes) (bs : Bytes) (e : Err) (rest : List ReadRes)
+    (ws : List WriteRes) (ds : List DlRes) (cs cd : Option Err) :
+    nReads (run ⟨pre ++ ⟨bs, some e⟩ :: rest, ws, ds, cs, cd⟩).trace ≤ pre.length + 1 := by
+  unfold run
+  have hn := armBoth_nReads ds
+  rcases armBoth_cases ds with ⟨f, d', h⟩ | ⟨f1, f2, d', h⟩ | ⟨f1, f2, d', h⟩ <;> simp only [h] at hn ⊢
+  · omega
+  · omega
+  · rw [prepend_nReads, hn]; simpa using loop_reads_until_error pre bs e rest ws d'
 end CJ.HalfPipe
